@@ -42,7 +42,6 @@ package abci
 
 //@ func applicationState.resetProposal
 //@   trusted
-//@   requires s != nil
 //@   modifies s.proposal, s.canonicalState, *old(s.proposal)
 //@   ensures s.proposal != nil && fresh(s.proposal) && s.proposal.resultsBeginBlock == nil && s.proposal.resultsDeliverTx == nil && s.proposal.resultsEndBlock == nil && s.proposal.header == nil && s.proposal.hash == nil
 //@   note installs a fresh proposal state over a new overlay of the canonical state; nothing of the previous proposal's results survives (tree construction is outside the contracts)
@@ -108,7 +107,9 @@ package abci
 //@   props C01
 //@   requires mux != nil && mux.state != nil
 //@   loop 1 invariant len(lastCommit.Votes) == idx() && lastCommit.Round == req.LocalLastCommit.Round
-//@   loop 1 invariant forall j int :: 0 <= j && j < idx() ==> lastCommit.Votes[j].SignedLastBlock == req.LocalLastCommit.Votes[j].SignedLastBlock && lastCommit.Votes[j].Validator.Power == req.LocalLastCommit.Votes[j].Validator.Power && bytesId(lastCommit.Votes[j].Validator.Address) == bytesId(req.LocalLastCommit.Votes[j].Validator.Address)
+//@   loop 1 invariant forall j int :: 0 <= j && j < idx() ==> lastCommit.Votes[j].SignedLastBlock == req.LocalLastCommit.Votes[j].SignedLastBlock
+//@   loop 1 invariant forall j int :: 0 <= j && j < idx() ==> lastCommit.Votes[j].Validator.Power == req.LocalLastCommit.Votes[j].Validator.Power
+//@   loop 1 invariant forall j int :: 0 <= j && j < idx() ==> bytesId(lastCommit.Votes[j].Validator.Address) == bytesId(req.LocalLastCommit.Votes[j].Validator.Address)
 //@   precall abciMux\)\.executeProposal$ :: lastCommit.Round == req.LocalLastCommit.Round && len(lastCommit.Votes) == len(req.LocalLastCommit.Votes)
 //@   precall abciMux\)\.executeProposal$ :: forall j int :: 0 <= j && j < len(lastCommit.Votes) ==> lastCommit.Votes[j].SignedLastBlock == req.LocalLastCommit.Votes[j].SignedLastBlock && lastCommit.Votes[j].Validator.Power == req.LocalLastCommit.Votes[j].Validator.Power && bytesId(lastCommit.Votes[j].Validator.Address) == bytesId(req.LocalLastCommit.Votes[j].Validator.Address)
 //@   precall abciMux\)\.executeProposal$ :: header.Height == req.Height && header.Time == req.Time && bytesId(header.ProposerAddress) == bytesId(req.ProposerAddress) && bytesId(header.NextValidatorsHash) == bytesId(req.NextValidatorsHash)
